@@ -61,13 +61,20 @@ func NativeToObject(val any) Object {
 	return nil
 }
 
+// nativeMapToObject returns nil when a value of the map has an unsupported type
 func nativeMapToObject(val any) Object {
 	obj := &Obj{Pairs: make(map[string]Object)}
 
 	valValue := reflect.ValueOf(val)
 
 	for _, key := range valValue.MapKeys() {
-		obj.Pairs[key.String()] = NativeToObject(valValue.MapIndex(key).Interface())
+		pair := NativeToObject(valValue.MapIndex(key).Interface())
+
+		if pair == nil {
+			return nil
+		}
+
+		obj.Pairs[key.String()] = pair
 	}
 
 	return obj
@@ -89,6 +96,7 @@ func convertToInterfaceSlice(slice any) []any {
 	return ret
 }
 
+// nativeStructToObject returns nil when an exported field has an unsupported type
 func nativeStructToObject(val any) Object {
 	obj := &Obj{Pairs: make(map[string]Object)}
 
@@ -103,17 +111,30 @@ func nativeStructToObject(val any) Object {
 
 		fieldVal := reflect.ValueOf(val).Field(i).Interface()
 
-		obj.Pairs[field.Name] = NativeToObject(fieldVal)
+		pair := NativeToObject(fieldVal)
+
+		if pair == nil {
+			return nil
+		}
+
+		obj.Pairs[field.Name] = pair
 	}
 
 	return obj
 }
 
-func nativeSliceToArrayObject(slice []any) *Array {
+// nativeSliceToArrayObject returns nil when an element has an unsupported type
+func nativeSliceToArrayObject(slice []any) Object {
 	arr := &Array{}
 
 	for _, val := range slice {
-		arr.Elements = append(arr.Elements, NativeToObject(val))
+		elem := NativeToObject(val)
+
+		if elem == nil {
+			return nil
+		}
+
+		arr.Elements = append(arr.Elements, elem)
 	}
 
 	return arr
